@@ -23,7 +23,7 @@ def _flush_loop(st: ast.AST, src: T.Callable[[ast.AST], bool]) -> T.Optional[str
         return None
     b = st.body[0]
     if isinstance(b, ast.Expr) and isinstance(b.value, ast.Call) and call_method(b.value) == 'append_whitespaces' \
-            and len(b.value.args) == 1 and norm(b.value.args[0]) == st.target.id and isinstance(b.value.func, ast.Attribute) \
+            and [norm(a) for a in list(b.value.args) + [k.value for k in b.value.keywords]] == [st.target.id] and isinstance(b.value.func, ast.Attribute) \
             and isinstance(b.value.func.value, ast.Name):
         return b.value.func.value.id
     return None
@@ -58,6 +58,54 @@ def _returned_by(methods: T.Dict[str, ast.FunctionDef], name: str, x: str, depth
     return ''
 
 
+def _consumers(methods: T.Dict[str, ast.FunctionDef], primitive: str) -> T.Set[str]:
+    out = {primitive}
+    changed = True
+    while changed:
+        changed = False
+        for n, fn in methods.items():
+            if n not in out and any(isinstance(c, ast.Call) and (attr_chain(c.func) or '').startswith('self.') and (attr_chain(c.func) or '')[5:] in out
+                                    for c in walk_no_nested(fn)):
+                out.add(n)
+                changed = True
+    return out
+
+
+def _buffer_readers(methods: T.Dict[str, ast.FunctionDef], primitive: str) -> T.Set[str]:
+    """Parser methods that (transitively) read the pending-whitespace buffer, other than the stream advance."""
+    def reads(fn: ast.AST) -> bool:
+        return any(isinstance(x, ast.Attribute) and attr_chain(x) == BUF and isinstance(x.ctx, ast.Load) for x in walk_no_nested(fn))
+    out = {n for n, fn in methods.items() if n != primitive and reads(fn)}
+    return out
+
+
+def _unread_path(cfg: CFG, reset: T.Any, methods: T.Dict[str, ast.FunctionDef], primitive: str) -> T.Optional[str]:
+    """Description of a point (function entry or a token-consuming call) from which `reset` can be reached without any node in
+    between reading the buffer; None if every such path reads it (by a loop, a call taking it, or a helper that reads it)."""
+    cons = _consumers(methods, primitive)
+    helpers = _buffer_readers(methods, primitive)
+
+    def calls(e: T.Optional[ast.AST], names: T.Set[str]) -> bool:
+        return e is not None and any(isinstance(c, ast.Call) and (attr_chain(c.func) or '').startswith('self.') and (attr_chain(c.func) or '')[5:] in names
+                                     for c in walk_no_nested(e))
+
+    def reads(n: T.Any) -> bool:
+        e = n.expr()
+        if e is None or n.id == reset.id:
+            return False
+        roots = [n.ast.iter] if n.kind == 'iter' else [e]
+        direct = any(isinstance(x, ast.Attribute) and attr_chain(x) == BUF and isinstance(x.ctx, ast.Load) for r in roots for x in walk_no_nested(r))
+        return direct or calls(e, helpers - cons)
+    readers = [n for n in cfg.nodes if reads(n)]
+    starts = [(cfg.entry, 'the function entry')] + [(n, f'`{short(n.expr(), 50)}`') for n in cfg.nodes if n.id != reset.id and calls(n.expr(), cons)]
+    for st, what in starts:
+        if st in readers:
+            continue
+        if reset.id in cfg.reachable([st], avoid=readers):
+            return what
+    return None
+
+
 def check_keepers(ctx: RuleCtx, model: NodeModel) -> None:
     """Every path of every append_whitespaces (and of WhitespaceNode's accumulator) keeps the token text."""
     mod = model.mod
@@ -83,8 +131,17 @@ def check_keepers(ctx: RuleCtx, model: NodeModel) -> None:
                                 and isinstance(x.op, ast.Add):
                             kept = True
                 n += 1
-                ctx.require(kept, f'{cname}.{fn.name}: whitespace token kept on path `{p.describe()}`', mod, f'{cname}.{fn.name}', fn,
-                            f'on the path `{p.describe()}` the whitespace token `{tok}` is not stored: its text would be lost')
+                mentioned = any(isinstance(x, ast.Name) and x.id == tok for st in p.stmts() for x in ast.walk(st))
+                overwritten = [x for st in p.stmts() for x in ast.walk(st) if isinstance(x, ast.Assign) and (attr_chain(x.targets[0]) or '').startswith('self.')
+                               and f'{tok}.value' in norm(x.value) and norm(x.targets[0]) not in norm(x.value) and fn.name == 'append']
+                if kept:
+                    ctx.ok(f'{cname}.{fn.name}: whitespace token kept on path `{p.describe()}`')
+                elif not mentioned:
+                    ctx.violation(mod, f'{cname}.{fn.name}', fn, f'on the path `{p.describe()}` the whitespace token `{tok}` is not used at all: its text is lost', fn)
+                elif overwritten:
+                    ctx.violation(mod, f'{cname}.{fn.name}', overwritten[0], f'`{short(overwritten[0])}` replaces the accumulated whitespace text by the text of the last token', overwritten[0])
+                else:
+                    raise Undecided(f'{cname}.{fn.name}: how the path `{p.describe()}` keeps the whitespace token `{tok}` is not understood')
     ctx.floor('whitespace keeper paths', n, 6)
 
 
@@ -144,7 +201,10 @@ def check_buffer(ctx: RuleCtx, model: NodeModel, primitive: str, wrapper: str) -
                                 all(cfg.nodes[q].kind == 'iter' and cfg.nodes[q].ast is pn.ast and l2 == 'done' for q, l2 in cfg.pred[pn.id]):
                             x = _flush_loop(pn.ast, _is_buf)
                         if x is None:
-                            ok, why = False, f'is reached from `{short(pn.ast, 60)}` without a flush loop immediately before it'
+                            lost = _unread_path(cfg, node, methods, primitive)
+                            if lost is None:
+                                raise Undecided(f'{qn}: the pending whitespace is read before `{short(w)}` in a way that is not a recognised flush loop')
+                            ok, why = False, f'can be reached after {lost} without the buffer being read in between'
                             continue
                         # the receiving node is returned by this function; when it is a parameter (flush helper), by every caller
                         bad = _returned_by(methods, name, x, 0)
@@ -221,5 +281,43 @@ def _check_slice(ctx: RuleCtx, model: NodeModel, fn: ast.FunctionDef, qn: str, c
             why = f'the token `{tokname}` carrying the merged text is not turned into a node on every path to a return'
             continue
         good = True
-    ctx.require(good, f'{qn}: the prefix removed by `{short(w)}` is replayed and merged into the operator token on every returning path', mod, qn,
-                'removed prefix re-attached', f'`{short(w)}` drops len({pre}) pending tokens and {why}', w)
+    if good:
+        ctx.ok(f'{qn}: the prefix removed by `{short(w)}` is replayed and merged into the operator token on every returning path')
+        return
+    # Not recognised.  A violation needs positive evidence: a returning path on which the removed prefix is not replayed in full,
+    # or on which the node it was replayed into is never read again.
+    def loads(n: T.Any, name: str) -> T.List[ast.AST]:
+        e = n.expr()
+        roots = ([n.ast.iter] if n.kind == 'iter' else [e]) if e is not None else []
+        return [x for r in roots for x in walk_no_nested(r) if isinstance(x, ast.Name) and x.id == name and isinstance(x.ctx, ast.Load)]
+
+    def partial(n: T.Any) -> bool:
+        """reads of the snapshot that cannot replay it in full: len(pre), pre[<constant>]"""
+        e = n.expr()
+        par: T.Dict[int, ast.AST] = {}
+        for x in (walk_no_nested(e) if e is not None else []):
+            for ch in ast.iter_child_nodes(x):
+                par[id(ch)] = x
+        for x in loads(n, pre):
+            p_ = par.get(id(x))
+            if isinstance(p_, ast.Call) and norm(p_.func) == 'len':
+                continue
+            if isinstance(p_, ast.Subscript) and p_.value is x and isinstance(p_.slice, ast.Constant):
+                continue
+            return False
+        return True
+    full = [n for n in cfg.nodes if n.id != wn.id and loads(n, pre) and not partial(n)]
+    if cfg.exit_return.id in cfg.reachable([wn], avoid=full):
+        ctx.violation(mod, qn, 'removed prefix re-attached', f'`{short(w)}` drops len({pre}) pending tokens and a path to a return never replays the whole '
+                      f'snapshot `{pre}` (it is not iterated or handed on in between)', w)
+        return
+    for lp in loops:
+        x = _flush_loop(lp.ast, lambda e: True)
+        body_ids = {id(y) for y in ast.walk(lp.ast)}
+        readers = [n for n in cfg.nodes if any(id(y) not in body_ids for y in loads(n, x or ''))]
+        after = [cfg.nodes[b] for b, lab in cfg.succ[lp.id] if lab == 'done']
+        if cfg.exit_return.id in cfg.reachable(after, avoid=readers, include_start=True):
+            ctx.violation(mod, qn, 'removed prefix re-attached', f'`{short(w)}` drops len({pre}) pending tokens; they are replayed into `{x}`, '
+                          f'but a path to a return never reads `{x}` again: the text is lost', w)
+            return
+    raise Undecided(f'{qn}: how the prefix removed by `{short(w)}` is re-attached is not understood ({why})')
